@@ -128,6 +128,7 @@ class Recorder:
         self.cls_idx = {c: k + 1 for k, c in enumerate(class_names)}
         self.steps = []
         self.recseq = []  # data records appended since the last event, in order
+        self.exact = False
         self.inds = {}  # id -> Individual (every individual ever seen)
 
     def ci(self, name):
@@ -449,7 +450,10 @@ def proj_rec(R, r):
             "se": tk(r.service_end_date, "r.se"), "tb": tk(r.time_blocked, "r.tb"),
             "exit": tk(r.exit_date, "r.exit"), "dest": iv(r.destination),
             "qa": iv(r.queue_size_at_arrival), "qd": iv(r.queue_size_at_departure),
-            "sid": iv(r.server_id) if r.server_id is not False else 0}
+            "sid": iv(r.server_id) if r.server_id is not False else 0,
+            "dec": (not R.exact) or all(isinstance(v, Decimal) or v is False or (isinstance(v, float) and math.isnan(v))
+                                         for v in (r.arrival_date, r.waiting_time, r.service_start_date, r.service_time,
+                                                   r.service_end_date, r.time_blocked, r.exit_date))}
 
 
 def _srv_name(name):
